@@ -392,12 +392,12 @@ theorem tailFix (h : Hdr) (rest : Bytes) (ht : TailOK h rest) :
 /-- EncodedTextSpec: valid text written under encoding `enc` (any of the four) and followed
 by `rest` is read back, and `rest` is left -/
 theorem readEncText_write (h : Hdr) (c : Ctx) (enc : Nat) (hc : ctxEnc c = .ok enc) (t : Text)
-    (ht : TextOK enc t) (rest : Bytes) (htail : TailOK h rest) :
+    (ht : TextOK enc t) (rest : Bytes) :
     ∃ b, writeEncText c t = .ok b ∧ readEncText h c (b ++ rest) = .ok (t, rest) ∧ b ≠ [] := by
   obtain ⟨b, tm, hb, htm, hdec, hne⟩ := decodeTerminated_encode enc (ctxEnc_le c enc hc) t ht false rest
   refine ⟨b ++ tm, by simp [writeEncText, hc, hb, htm], ?_, by simp [hne]⟩
   obtain ⟨tl, htl⟩ := textFixups_head enc (b ++ tm ++ rest)
-  simp only [readEncText, hc, htl, tryDecode, hdec, tailFix h rest htail]
+  simp only [readEncText, hc, htl, tryDecode, hdec]
 
 /-- the bytes written for a non-empty valid text are not all NUL, whatever follows -/
 theorem writeEncText_not_allZero (c : Ctx) (enc : Nat) (hc : ctxEnc c = .ok enc) (t : Text)
@@ -469,17 +469,17 @@ theorem tsWire_ne_nil (t : Text) (h : t ≠ []) : tsWire t ≠ [] := by
   | cons x r => simp [tsWire]
 
 theorem readTextKind_write (h : Hdr) (c : Ctx) (enc : Nat) (hc : ctxEnc c = .ok enc) (tk : TextKind)
-    (t : Text) (ht : TextKindOK enc tk t) (rest : Bytes) (htail : TailOK h rest) :
+    (t : Text) (ht : TextKindOK enc tk t) (rest : Bytes) :
     ∃ b, writeTextKind c tk (.text t) = .ok b ∧ readTextKind h c tk (b ++ rest) = .ok (.text t, rest) ∧
       b ≠ [] ∧ (t ≠ [] → ∀ r, allZero (b ++ r) = false) := by
   by_cases hts : tk = .timeStamp
   · subst hts
     have hw := tsWire_ok enc t ht.1
-    obtain ⟨b, hb, hr, hne⟩ := readEncText_write h c enc hc (tsWire t) hw rest htail
+    obtain ⟨b, hb, hr, hne⟩ := readEncText_write h c enc hc (tsWire t) hw rest
     refine ⟨b, by simp [writeTextKind, hb], by simp [readTextKind, hr, ht.2 rfl], hne, ?_⟩
     intro hn r
     exact writeEncText_not_allZero c enc hc (tsWire t) hw (tsWire_ne_nil t hn) b hb r
-  · obtain ⟨b, hb, hr, hne⟩ := readEncText_write h c enc hc t ht.1 rest htail
+  · obtain ⟨b, hb, hr, hne⟩ := readEncText_write h c enc hc t ht.1 rest
     refine ⟨b, ?_, ?_, hne, fun hn r => writeEncText_not_allZero c enc hc t ht.1 hn b hb r⟩
     · cases tk <;> simp_all [writeTextKind]
     · cases tk <;> simp_all [readTextKind]
@@ -494,7 +494,7 @@ def RecordOK (h : Hdr) (enc : Nat) : List TextKind → List Val → Prop
   | _, _ => False
 
 theorem readRecord_write (h : Hdr) (c : Ctx) (enc : Nat) (hc : ctxEnc c = .ok enc) (elems : List TextKind)
-    (record : List Val) (hrec : RecordOK h enc elems record) (rest : Bytes) (htail : TailOK h rest) :
+    (record : List Val) (hrec : RecordOK h enc elems record) (rest : Bytes) :
     ∃ b, writeRecord c elems record = .ok b ∧ readRecord h c elems (b ++ rest) = .ok (record, rest) ∧
       (elems ≠ [] → b ≠ []) ∧ (h.version < 4 → elems ≠ [] → ∀ r, allZero (b ++ r) = false) := by
   induction elems generalizing record with
@@ -510,18 +510,7 @@ theorem readRecord_write (h : Hdr) (c : Ctx) (enc : Nat) (hc : ctxEnc c = .ok en
       | text t =>
         obtain ⟨hk, hne23, hrest⟩ := hrec
         obtain ⟨bs, hbs, hrs, hnes, hz⟩ := ih vs hrest
-        have htail' : TailOK h (bs ++ rest) := by
-          intro hv
-          cases ks with
-          | nil =>
-            cases vs with
-            | nil =>
-              simp [writeRecord] at hbs
-              subst hbs
-              simpa using htail hv
-            | cons _ _ => simp [RecordOK] at hrest
-          | cons k' ks' => exact Or.inr (hz hv (by simp) rest)
-        obtain ⟨b, hb, hr, hne, hnz⟩ := readTextKind_write h c enc hc k t hk (bs ++ rest) htail'
+        obtain ⟨b, hb, hr, hne, hnz⟩ := readTextKind_write h c enc hc k t hk (bs ++ rest)
         refine ⟨b ++ bs, by simp [writeRecord, hb, hbs], ?_, by simp [hne], ?_⟩
         · simp only [readRecord, List.append_assoc, hr, hrs]
         · intro hv _ r
@@ -582,7 +571,7 @@ theorem readMulti_write (h : Hdr) (c : Ctx) (enc : Nat) (hc : ctxEnc c = .ok enc
       cases rs with
       | nil => simp [writeMulti] at hbs; subst hbs; exact Or.inl rfl
       | cons _ _ => exact Or.inr (by simpa using hz hv (by simp) [])
-    obtain ⟨b, hb, hr, hneb, hzb⟩ := readRecord_write h c enc hc elems rec (hrecs rec (by simp)) bs htail
+    obtain ⟨b, hb, hr, hneb, hzb⟩ := readRecord_write h c enc hc elems rec (hrecs rec (by simp)) bs
     refine ⟨b ++ bs, ?_, ?_, by simp [hneb hne], ?_⟩
     · simp only [List.map_cons]
       exact writeMulti_one h c enc elems hne rec (hrecs rec (by simp)) _ b bs hb hbs
@@ -591,7 +580,8 @@ theorem readMulti_write (h : Hdr) (c : Ctx) (enc : Nat) (hc : ctxEnc c = .ok enc
       have h2 : bs.length < (b ++ bs).length := by
         have : b.length ≠ 0 := by simpa using hneb hne
         simp; omega
-      simp only [h1, ↓reduceIte, hr, h2, ↓reduceDIte, hrs, List.map_cons]
+      have hst : stripZeroTail h bs = bs := tailFix h bs htail
+      simp only [h1, ↓reduceIte, hr, hst, h2, ↓reduceDIte, hrs, List.map_cons]
     · intro hv _ r
       rw [List.append_assoc]
       exact hzb hv hne (bs ++ r)
@@ -981,7 +971,7 @@ def normVal (k : SpecKind) (v : Val) : Val :=
   | _, _ => v
 
 def RestOK (h : Hdr) (k : SpecKind) (rest : Bytes) : Prop :=
-  (greedy k = true → rest = []) ∧ (isEncText k = true → TailOK h rest)
+  greedy k = true → rest = []
 
 section unfold
 variable (sub : Hdr → Bytes → Except PyErr (List Val × Bytes)) (subw : Cfg → List Val → Except PyErr Bytes)
@@ -1094,16 +1084,16 @@ theorem read_write (E : Env) (c : Ctx) (k : SpecKind) (v : Val) (hv : Valid E c 
     exact ⟨b, by rw [writeSpec_frameId, h1], by rw [readSpec_frameId, h2]; rfl, fun _ => h3 hn⟩
   | binary =>
     obtain ⟨b, rfl⟩ := hv
-    have : rest = [] := hr.1 rfl
+    have : rest = [] := hr rfl
     subst this
     exact ⟨b, by rw [writeSpec_binary], by rw [readSpec_binary]; simp [normVal], by simp [handleNoData]⟩
   | encText tk =>
     obtain ⟨enc, t, rfl, hc, ht⟩ := hv
-    obtain ⟨b, h1, h2, h3, _⟩ := readTextKind_write E.h c enc hc tk t ht rest (hr.2 rfl)
+    obtain ⟨b, h1, h2, h3, _⟩ := readTextKind_write E.h c enc hc tk t ht rest
     exact ⟨b, by rw [writeSpec_encText, h1], by rw [readSpec_encText, h2]; rfl, fun _ => h3⟩
   | multi elems =>
     obtain ⟨hne, enc, recs, hc, rfl, hrne, hrecs⟩ := hv
-    have : rest = [] := hr.1 rfl
+    have : rest = [] := hr rfl
     subst this
     obtain ⟨b, h1, h2, h3, _⟩ := readMulti_write E.h c enc hc elems hne recs hrecs
     exact ⟨b, by rw [writeSpec_multi, h1], by rw [List.append_nil, readSpec_multi _ _ _ _ _ _ h2]; rfl, fun _ => h3 hrne⟩
@@ -1129,7 +1119,7 @@ theorem read_write (E : Env) (c : Ctx) (k : SpecKind) (v : Val) (hv : Valid E c 
     intro he; subst he; simp at hlen; omega
   | integer =>
     obtain ⟨m, rfl⟩ := hv
-    have : rest = [] := hr.1 rfl
+    have : rest = [] := hr rfl
     subst this
     obtain ⟨b, h1, h2, h3⟩ := readInteger_write m
     exact ⟨b, by rw [writeSpec_integer, h1], by rw [List.append_nil, readSpec_integer, h2]; rfl, fun _ => h3⟩
@@ -1145,20 +1135,20 @@ theorem read_write (E : Env) (c : Ctx) (k : SpecKind) (v : Val) (hv : Valid E c 
     simp [normVal]
   | syncText =>
     obtain ⟨enc, es, hc, rfl, hne, hes⟩ := hv
-    have : rest = [] := hr.1 rfl
+    have : rest = [] := hr rfl
     subst this
     obtain ⟨b, h1, h2, h3⟩ := readSyncText_write c enc hc es hes
     exact ⟨b, by rw [writeSpec_syncText, h1], by rw [List.append_nil, readSpec_syncText _ _ _ _ enc _ hc h2]; rfl,
       fun _ => h3 hne⟩
   | keyEvent =>
     obtain ⟨es, rfl, hne, hes⟩ := hv
-    have : rest = [] := hr.1 rfl
+    have : rest = [] := hr rfl
     subst this
     obtain ⟨b, h1, h2, h3⟩ := readKeyEvents_write es hes
     exact ⟨b, by rw [writeSpec_keyEvent, h1], by rw [List.append_nil, readSpec_keyEvent, h2]; rfl, fun _ => h3 hne⟩
   | volAdjs =>
     obtain ⟨ps, rfl, hne, hps⟩ := hv
-    have : rest = [] := hr.1 rfl
+    have : rest = [] := hr rfl
     subst this
     obtain ⟨b, h0, h1, h2, h3⟩ := readVolAdjs_write ps hps
     exact ⟨b, by rw [writeSpec_volAdjs _ _ _ _ _ h0, h1], by rw [List.append_nil, readSpec_volAdjs, h2]; rfl,
@@ -1169,7 +1159,7 @@ theorem read_write (E : Env) (c : Ctx) (k : SpecKind) (v : Val) (hv : Valid E c 
     exact ⟨d, by rw [writeSpec_aspiIndex, h1], by rw [readSpec_aspiIndex, h2]; rfl, fun _ => h3 hne⟩
   | frames =>
     obtain ⟨fs, b, rfl, hw, hrd⟩ := hv
-    have : rest = [] := hr.1 rfl
+    have : rest = [] := hr rfl
     subst this
     exact ⟨b, by rw [writeSpec_frames, hw], by rw [List.append_nil, readSpec_frames _ _ _ _ _ _ hrd]; rfl,
       by simp [handleNoData]⟩
@@ -1211,22 +1201,6 @@ def normVals : List FieldSpec → List Val → List Val
 def FieldsValid (E : Env) : Ctx → List FieldSpec → List Val → Prop
   | c, s :: ss, v :: vs => Valid E c s.kind v ∧ FieldsValid E (ctxUpdate c s.name (normVal s.kind v)) ss vs
   | _, _, _ => True
-
-/-- under a v2.2/v2.3 header: the bytes written after an `EncodedTextSpec` field are empty
-or not all NUL (vacuous under a v2.4 header) -/
-def TailsOK (E : Env) (cw : Ctx) : List FieldSpec → List Val → Prop
-  | s :: ss, _ :: vs =>
-    (isEncText s.kind = true → ∀ b, writeOpt E.subw E.cfg cw ss vs = .ok b → TailOK E.h b) ∧ TailsOK E cw ss vs
-  | _, _ => True
-
-theorem TailsOK_v24 (E : Env) (cw : Ctx) (hv : ¬ E.h.version < 4) (specs : List FieldSpec) (vals : List Val) :
-    TailsOK E cw specs vals := by
-  induction specs generalizing vals with
-  | nil => cases vals <;> trivial
-  | cons s ss ih =>
-    cases vals with
-    | nil => trivial
-    | cons v vs => exact ⟨fun _ b _ h4 => absurd h4 hv, ih vs⟩
 
 /-! ### the writers depend on the frame attributes only through the ones they use -/
 
@@ -1356,19 +1330,19 @@ as many as there are values) are read back by the optional-spec reader, which st
 the data is used up. -/
 theorem readOpt_writeOpt (E : Env) (specs : List FieldSpec) :
     ∀ (vals : List Val) (cr cw : Ctx), vals.length ≤ specs.length → structOK specs = true →
-      FieldsValid E cr specs vals → TailsOK E cw specs vals →
+      FieldsValid E cr specs vals →
       (∀ hlt : vals.length < specs.length, handleNoData (specs[vals.length]).kind = false) →
       cw = frameCtx specs vals cr →
       ∃ b, writeOpt E.subw E.cfg cw specs vals = .ok b ∧
         readOpt E.sub E.h cr specs b = .ok (normVals specs vals, []) := by
   induction specs with
   | nil =>
-    intro vals cr cw hlen _ _ _ _ _
+    intro vals cr cw hlen _ _ _ _
     cases vals with
     | nil => exact ⟨[], by simp [writeOpt], by simp [readOpt, normVals]⟩
     | cons _ _ => simp at hlen
   | cons s ss ih =>
-    intro vals cr cw hlen hst hval htails hcomp hcw
+    intro vals cr cw hlen hst hval hcomp hcw
     cases vals with
     | nil =>
       have hnd := hcomp (by simp)
@@ -1378,7 +1352,6 @@ theorem readOpt_writeOpt (E : Env) (specs : List FieldSpec) :
       simp only [structOK, Bool.and_eq_true, Bool.or_eq_true, Bool.not_eq_true'] at hst
       obtain ⟨⟨⟨⟨hgr, henc⟩, haspi⟩, hpk⟩, hst'⟩ := hst
       obtain ⟨hv, hvals⟩ := hval
-      obtain ⟨htl, htails'⟩ := htails
       have hnorm : ctxUpdate cr s.name (normVal s.kind v) = ctxUpdate cr s.name v := by
         apply ctxUpdate_norm
         intro hk
@@ -1392,22 +1365,19 @@ theorem readOpt_writeOpt (E : Env) (specs : List FieldSpec) :
         intro hlt
         have := hcomp (by simpa using hlt)
         simpa using this
-      obtain ⟨bs, hbs, hrs⟩ := ih vs _ cw hlen' hst' hvals htails' hcomp' hcw'
+      obtain ⟨bs, hbs, hrs⟩ := ih vs _ cw hlen' hst' hvals hcomp' hcw'
       -- what follows this spec
       have hrest : RestOK E.h s.kind bs := by
-        constructor
-        · intro hg
-          rcases hgr with hgr | hgr
-          · rw [hg] at hgr; cases hgr
-          · have : ss = [] := by simpa using hgr
-            subst this
-            have : vs = [] := by cases vs with
-              | nil => rfl
-              | cons _ _ => simp at hlen'
-            subst this
-            simpa [writeOpt] using hbs.symm
-        · intro ht
-          exact htl ht bs hbs
+        intro hg
+        rcases hgr with hgr | hgr
+        · rw [hg] at hgr; cases hgr
+        · have : ss = [] := by simpa using hgr
+          subst this
+          have : vs = [] := by cases vs with
+            | nil => rfl
+            | cons _ _ => simp at hlen'
+          subst this
+          simpa [writeOpt] using hbs.symm
       obtain ⟨b, hb, hr, hne⟩ := read_write E cr s.kind v hv bs hrest
       -- the writer sees the final attributes; they agree with the ones read so far where used
       have hcong : writeSpec E.subw E.cfg s.kind cw v = writeSpec E.subw E.cfg s.kind cr v := by
@@ -1515,14 +1485,12 @@ theorem readFrame_writeFrame (E : Env) (cls : FrameClass) (vals vals' : List Val
     (hstruct : structOK (cls.required ++ cls.optional) = true)
     (hlen1 : cls.required.length ≤ vals'.length) (hlen2 : vals'.length ≤ (cls.required ++ cls.optional).length)
     (hvalid : FieldsValid E (initCtx cls.required {}) (cls.required ++ cls.optional) vals')
-    (htails : TailsOK E (frameCtx (cls.required ++ cls.optional) vals' (initCtx cls.required {}))
-      (cls.required ++ cls.optional) vals')
     (hcomp : ∀ hlt : vals'.length < (cls.required ++ cls.optional).length,
       handleNoData ((cls.required ++ cls.optional)[vals'.length]).kind = false) :
     ∃ b, writeFrame E.subw E.cfg cls vals = .ok b ∧
       readFrame E.sub E.h cls b = .ok (normVals (cls.required ++ cls.optional) vals', []) := by
   obtain ⟨B, hw, hr⟩ := readOpt_writeOpt E (cls.required ++ cls.optional) vals' (initCtx cls.required {}) _
-    hlen2 hstruct hvalid htails hcomp rfl
+    hlen2 hstruct hvalid hcomp rfl
   obtain ⟨b, bo, h1, h2, h3⟩ := writeReq_writeOpt E.subw E.cfg _ cls.required cls.optional vals' B hlen1 hw
   obtain ⟨vs1, vs2, dm, c1, r1, r2, r3⟩ := readReq_readOpt E.sub E.h cls.required cls.optional _ B _ []
     (by rw [length_normVals _ _ hlen2]; exact hlen1) hr
